@@ -484,6 +484,10 @@ where
         serde_json::to_string(&res)
     }
     .unwrap();
+    #[cfg(wilfred_garden_verif)]
+    if crate::verif_sim::capture_stdout(&serialized) {
+        return;
+    }
     println!("{serialized}");
 }
 
@@ -863,6 +867,10 @@ fn eval_to_response(env: &mut Env, session: &Session) -> Response {
         },
     }
 }
+
+#[cfg(wilfred_garden_verif)]
+#[path = "/verif/sim/src/json_api.rs"]
+pub(crate) mod verif_api;
 
 pub(crate) fn json_session(interrupted: Arc<AtomicBool>) {
     let messages = [
